@@ -81,6 +81,27 @@ static void check_decode_buf(Ctx &c, const char *codec, const ST::string &text, 
             c.fail(strf("%s_decode(buffer):overrun:%s", codec, cls), strf("byte %zu past output_size was overwritten", i - data.size()));
             break;
         }
+    // a larger capacity (up to the integer limits) changes nothing: same return value, same bytes, nothing beyond them
+    static const size_t CAPS[] = {1, 16, size_t(1) << 31, size_t(1) << 32, (size_t(1) << 63) - 1, size_t(1) << 63, ~size_t(0)};
+    for (size_t cap : CAPS) {
+        size_t claimed = cap <= 16 ? data.size() + cap : cap;
+        if (claimed < data.size()) continue;
+        std::fill(buf.begin(), buf.end(), (unsigned char)0xEE);
+        ST_ssize_t g2 = b64 ? ST::base64_decode(text, buf.data(), claimed) : ST::hex_decode(text, buf.data(), claimed);
+        VF_COUNT("ops");
+        const char *cc = cap <= 16 ? "slack" : cap <= (size_t(1) << 32) ? "2^31..2^32" : "2^63..SIZE_MAX";
+        if (g2 != (ST_ssize_t)data.size())
+            c.fail(strf("%s_decode(buffer):return:capacity=%s:%s", codec, cc, cls),
+                   strf("output_size %zu: returned %zd, expected %zu", claimed, (ssize_t)g2, data.size()));
+        else if (memcmp(buf.data(), data.data(), data.size()) != 0)
+            c.fail(strf("%s_decode(buffer):bytes:capacity=%s:%s", codec, cc, cls), strf("output_size %zu: wrong bytes", claimed));
+        for (size_t i = data.size(); i < buf.size(); ++i)
+            if (buf[i] != 0xEE) {
+                c.fail(strf("%s_decode(buffer):wrote-past-decoded-length:capacity=%s:%s", codec, cc, cls),
+                       strf("output_size %zu: byte %zu past the decoded length was overwritten", claimed, i - data.size()));
+                break;
+            }
+    }
 }
 
 static void check_b64(Ctx &c, const std::string &data, const char *cls)
@@ -177,7 +198,7 @@ static void build(vf::Plan &plan, const vf::Opts &o)
     selftest();
     plan.rule = "cases = every byte array of the listed complete domains (each array is distinct); non-trivial = array with at least two different byte values";
     plan.assumptions = {"reference encoders validated against CPython binascii by CRC over the complete 2^24 / 2^16 / 2^8 domains",
-                        "arrays longer than 3 bytes are covered by the length x content sweep only (locality of the 3-byte group loop)"};
+                        "arrays longer than 3 bytes are covered by the length x content sweeps only (locality of the 3-byte group loop); every length up to the bound is present"};
     for (int n = 3; n >= 1; --n) {
         plan.stage(strf("b64:all-%d-byte-groups(alone+after-full-group)", n), 1ull << (8 * n),
                    [n](uint64_t i, Ctx &c) {
@@ -200,6 +221,22 @@ static void build(vf::Plan &plan, const vf::Opts &o)
                    VF_COUNT("validated");
                },
                [](uint64_t i) { return desc_bytes(sweep_data(i)); });
+    // long arrays: every length across the library's internal size classes (16-byte in-object strings, 256-byte stack
+    // strings, 4 KiB stream growth), a few contents each
+    unsigned longmax = o.thorough() ? 4200 : 1100, nseed = o.thorough() ? 8 : 3;
+    plan.stage(strf("b64+hex:long-length-sweep(%u..%u)x%u-contents", maxlen + 1, longmax, nseed), (uint64_t)(longmax - maxlen) * nseed,
+               [maxlen, nseed](uint64_t i, Ctx &c) {
+                   unsigned seed = (unsigned)(i % nseed) * 83u + 1u, len = (unsigned)(i / nseed) + maxlen + 1;
+                   std::string d = sweep_data((uint64_t)len * 256 + seed % 256);
+                   check_b64(c, d, strf("long:nmod3=%zu", d.size() % 3).c_str());
+                   check_hex(c, d, "long");
+                   c.nontrivial();
+                   VF_COUNT("validated");
+               },
+               [maxlen, nseed](uint64_t i) {
+                   unsigned seed = (unsigned)(i % nseed) * 83u + 1u, len = (unsigned)(i / nseed) + maxlen + 1;
+                   return desc_bytes(sweep_data((uint64_t)len * 256 + seed % 256));
+               });
     plan.stage("hex:all-2-byte-arrays", 65536,
                [](uint64_t i, Ctx &c) {
                    std::string d = mk((unsigned)i, 2, false);
